@@ -185,9 +185,11 @@ func checkC05(w *World, r *Report) {
 	r.Rule("C05.avail", "P5,P7", "Sent grows only where currentlyLocked(pool) >= amount (ordering table: '<' => error, '=' and '>' => proceed) and amount is not negative; Withdrawn grows only by the result of CalculateWithdrawable", 4)
 	r.Rule("C05.errprop", "P5", "in cfevesting message trees every error result of a bank or keeper call is tested, and its failure edge returns a non-nil error (event-emission errors may be logged and dropped)", 10)
 	r.Rule("C05.gen", "P5", "InitGenesis persists pools only after ValidateAccountsOnGenesis succeeded, which compares the sum of GetCurrentlyLocked with the module balance", 2)
+	r.Rule("C05.locked", "P6", "the currently-locked amount of a pool is InitiallyLocked minus Sent minus Withdrawn (exactly these three ledger fields), and pool validation rejects a negative value of each and of the difference", 5)
 	if !ro.checkFloors(r) {
 		return
 	}
+	c05locked(w, r)
 	modName, _ := constOf(w, "x/cfevesting/types", "ModuleName")
 	poolPrefix := ""
 	if sp := w.Pkg("x/cfevesting/types"); sp != nil {
@@ -714,5 +716,69 @@ func c05gen(w *World, r *Report, isPersist func(*Site) bool) {
 	}
 	if !found {
 		r.Bad("C05.gen", "ValidateAccountsOnGenesis compares sum of locked with the module balance", w.Pos(vg.Pos()), "comparison not found")
+	}
+}
+
+// c05locked: GetCurrentlyLocked = InitiallyLocked - Sent - Withdrawn, and VestingPool.Validate guards the ledger.
+func c05locked(w *World, r *Report) {
+	gl := w.Func("x/cfevesting/types.VestingPool.GetCurrentlyLocked")
+	vv := w.Func("x/cfevesting/types.VestingPool.Validate")
+	if gl == nil || vv == nil {
+		r.Unk("infra.anchor", "x/cfevesting/types.VestingPool.GetCurrentlyLocked / Validate", "", "anchor not found")
+		return
+	}
+	rets := Returns(gl)
+	ok := len(rets) == 1
+	var minuend ssa.Value
+	subs := map[string]bool{}
+	if ok {
+		v := retVals(rets[0])[0]
+		for {
+			c, is := isCallTo(v, "math.Int.Sub")
+			if !is {
+				minuend = v
+				break
+			}
+			a := c.Common().Args
+			_, f, isF := fieldOfValue(a[1])
+			if !isF {
+				ok = false
+				break
+			}
+			if subs[f] {
+				ok = false // subtracted twice
+			}
+			subs[f] = true
+			v = a[0]
+		}
+	}
+	ok = ok && minuend != nil && loadOfField(minuend, "InitiallyLocked", nil) && len(subs) == 2 && subs["Sent"] && subs["Withdrawn"]
+	r.Check(ok, "C05.locked", "GetCurrentlyLocked = InitiallyLocked - Sent - Withdrawn", w.Pos(gl.Pos()), "one minuend, exactly the two counters subtracted once each", "the locked amount of a pool is not InitiallyLocked minus Sent minus Withdrawn: pools would be over- or under-backed")
+	// validation: each counter and the difference non-negative
+	for _, f := range []string{"InitiallyLocked", "Sent", "Withdrawn", "(currently locked)"} {
+		edges := EdgesWhere(vv, func(base ssa.Value) (bool, bool) {
+			c, isC := base.(*ssa.Call)
+			if !isC || !strings.HasSuffix(callName(c.Common()), "math.Int.IsNegative") {
+				return false, false
+			}
+			a := c.Common().Args[0]
+			if f == "(currently locked)" {
+				if _, is := isCallTo(a, "VestingPool.GetCurrentlyLocked"); is {
+					return true, true
+				}
+				return false, false
+			}
+			if loadOfField(a, f, nil) {
+				return true, true
+			}
+			return false, false
+		})
+		good := len(edges) > 0
+		for _, e := range edges {
+			if !FailsFrom(e.To()) {
+				good = false
+			}
+		}
+		r.Check(good, "C05.locked", "VestingPool.Validate rejects negative "+f, w.Pos(vv.Pos()), "IsNegative => error", "genesis validation accepts a pool with a negative "+f)
 	}
 }
